@@ -444,3 +444,54 @@ def ob_whole_run_status(fail: int, d: int, T: int, c: int, u0: bool, u1: bool, u
     sq = True if sq else False
     with untraced():
         return _whole_run(fail, d, T, c, upd, am, an, sq)
+
+
+# ------------------------------------------------------------------------------------------------ bounded history of the memory store
+import itertools as _it15  # noqa: E402
+
+_PERMS15 = list(_it15.permutations(range(3)))
+_ST15 = ["completed", "failed", "cancelled"]
+
+
+@obligation(quick=120, thorough=300,
+            what="MemoryWorkflowStore(max_completed=m): three handlers are created (running) in order h0, h1, h2 and end in a symbolic ORDER with "
+                 "symbolic outcomes; after every status write the handler that has just ended is stored with that outcome (the cap drops the "
+                 "OLDEST finished ones, never the one whose outcome is being recorded), and the stored finished handlers are the last m that ended",
+            bounds={"handlers": 3, "max_completed": "1..2", "completion order": "all 6", "outcomes": "completed / failed / cancelled"})
+def ob_memory_history_keeps_latest(m: int, perm: int, o0: int, o1: int, o2: int) -> bool:
+    """
+    pre: 1 <= m <= 2 and 0 <= perm <= 5 and 0 <= o0 <= 2 and 0 <= o1 <= 2 and 0 <= o2 <= 2
+    post: _
+    """
+    m, perm = pick_int(m, 1, 2), pick_int(perm, 0, 5)
+    outs = [pick_int(o, 0, 2) for o in (o0, o1, o2)]
+    with untraced():
+        store = MemoryWorkflowStore(max_completed=m)
+
+        async def main() -> bool:
+            for i in range(3):
+                await store.update(PersistentHandler(handler_id=f"h{i}", workflow_name="w", status="running", run_id=f"r{i}"))
+            ended = []
+            for i in _PERMS15[perm]:
+                st = _ST15[outs[i]]
+                await store.update_handler_status(f"r{i}", status=st, result=None, error="boom" if st == "failed" else None)
+                ended.append(i)
+                rows = {h.handler_id: h.status for h in await store.query(HandlerQuery())}
+                if rows.get(f"h{i}") != st:
+                    return False
+                for j in range(3):
+                    if j in ended[-m:]:
+                        if rows.get(f"h{j}") != _ST15[outs[j]]:
+                            return False
+                    elif j in ended:
+                        if f"h{j}" in rows:
+                            return False
+                    elif rows.get(f"h{j}") != "running":
+                        return False
+            return True
+
+        loop = asyncio.new_event_loop()
+        try:
+            return loop.run_until_complete(main())
+        finally:
+            loop.close()
